@@ -639,6 +639,6 @@ def check(rep, tier):
     collect_obligations(rep)
     store_obligations(rep)
     from vlib import preproc
-    preproc.obligation(rep, 'C16', tier, dialects=('mindsdb',))
+    preproc.obligation(rep, 'C16', tier, dialects=('mindsdb',), lead_semicolons=True)
     bounded(rep, tier)
     rep.notes.append('Reconstruction proved under value == source text; that precondition fails for the four rewriting token kinds (known findings).')
